@@ -531,6 +531,9 @@ class LabelRows(Filter[Iterable[Union[Dense,Sparse]],Iterable[Union[Dense,Sparse
             ind = first.headers[label] if isinstance(label,str) else label
             return map(LabelDense, rows, repeat(ind), repeat(tipe))
         else:
+            #sparse rows with a header map (e.g., sparse arff) expose their keys by header name
+            inv = getattr(first,'_inv',None)
+            if inv and not isinstance(label,str): label = inv.get(label,label)
             return map(LabelSparse, rows, repeat(label), repeat(tipe))
 
 class EncodeCatRows(Filter[Iterable[Union[Any,Dense,Sparse]], Iterable[Union[Any,Dense,Sparse]]]):
